@@ -47,6 +47,7 @@ def returned_locals(node, names):
 
 def run(ctx, R):
     F = ctx.facts()
+    choice_sequence_order(F, R)
     R.rule("RF9/RF10 canonical-key routing; RF3/RF4 float interning; RF1 lookup sites; RF1 construction vs removal; RF10 index_term")
 
     # ---- R1: routing ----------------------------------------------------------------------------
@@ -308,3 +309,37 @@ def callee_short(t):
     c = callee_of(t)
     m = re.search(r"([A-Za-z]+OffsetTable[A-Za-z]*)", c)
     return m.group(1) if m else short(c)
+
+
+def choice_sequence_order(F, R):
+    """When a second clause arrives for a first-argument key, a two-entry choice sequence is built from the clause already
+    indexed and the new one. Their order is the clause order seen by calls with that key, so it must follow the direction
+    of the insertion (assertz/consult: old then new; asserta: new then old) at EVERY such construction site (siblings for
+    constants, structures, lists; static and dynamic)."""
+    from .core import res_name
+    n = 0
+    for p, it in sorted(F.items.items()):
+        if it["file"] != "src/indexing.rs" or it["kind"] not in ("Fn", "AssocFn"):
+            continue
+        ph = F.hir(p)
+        lets = {x["pat"]["name"]: x["init"] for x in walk(ph["body"]) if x["k"] == "Let" and x["pat"]["k"] == "PBind" and "init" in x}
+        k = 0
+        for x in walk(ph["body"]):
+            if x["k"] == "Call" and re.search(r"IndexingLine::(DynamicIndexedChoice|IndexedChoice)$", x.get("resolved") or x.get("callee") or "") and x.get("args"):
+                a = x["args"][0]
+                init = lets.get(res_name(a)) if a["k"] == "Path" else a
+                if init is None:
+                    continue      # passed in by the caller (an existing sequence), not built here
+                while init.get("k") in ("DropTemps", "Paren", "Block") and (init.get("e") or init.get("expr")) and not init.get("stmts"):
+                    init = init.get("e") or init.get("expr")
+                builds_pair = any(y["k"] == "MacCall" or (y["k"] in ("Call", "MethodCall") and re.search(r"into_vec$|vec::from_elem$|box_new|Box::<.*>::new$", y.get("resolved") or y.get("callee") or "")) for y in walk(init)) or \
+                    any("vec" in [m[0] for m in y.get("mac", [])] for y in walk(init))
+                if not builds_pair:
+                    continue
+                n += 1
+                follows = init.get("k") == "If" and any(y["k"] == "MethodCall" and y["name"] == "is_append" for y in walk(init["cond"])) and "else" in init
+                R.ob("C06:new-choice-sequence:order-follows-insertion-direction:%s#%d" % (short(p), k), follows,
+                     "%s builds a two-clause choice sequence (line %s) without looking at append_or_prepend: an asserta on a key with one clause puts the new clause AFTER the old one, "
+                     "so calls with that key see the clauses in the wrong order" % (short(p), x["ln"]), F.where(p))
+                k += 1
+    R.floor("two-clause choice sequence constructions", n, 5)
